@@ -19,7 +19,7 @@ def sampleLog : Log :=
 theorem nf_n1 : NF "n1" := by unfold NF lc; rw [String.toList_map]; decide
 theorem nf_5e55 : NF "5e55" := by unfold NF lc; rw [String.toList_map]; decide
 
-theorem sampleLog_disc : SnapDisc sampleLog where
+theorem sampleLog_names : NameDisc sampleLog where
   idxPos := by simp [sampleLog]
   nodes := by
     have h : ∀ ic ∈ sampleLog, ∀ a ∈ ic.2.nodes, a = "n1" := by
@@ -39,13 +39,24 @@ theorem sampleLog_disc : SnapDisc sampleLog where
       intro a _ _ h _ _; exact h
     intro ic hic t ht
     rw [h ic hic t ht]; exact nf_n1
-  sessNF := by
-    have h : sessIds sampleLog = ["5e55"] := by simp [sessIds, sampleLog, Cmd.sessId]
-    rw [h]
-    intro a ha
-    simp at ha; subst ha; exact nf_5e55
-  sessNew := by
-    have h : sessIds sampleLog = ["5e55"] := by simp [sessIds, sampleLog, Cmd.sessId]
-    rw [h]; simp
+
+theorem sampleLog_disc : SnapDisc sampleLog := by
+  have h : sessIds sampleLog = ["5e55"] := by simp [sessIds, sampleLog, Cmd.sessId]
+  refine SnapDisc.ofDistinct sampleLog_names ?_ ?_
+  · rw [h]; intro a ha; simp at ha; subst ha; exact nf_5e55
+  · rw [h]; simp
+
+/-- the history behind `SnapCex.stale`: instance `s0` registered as "api" with a bound check, then as "web" -/
+def renameLog : Log :=
+  [ (1, .register ⟨⟨"n1", "", "10.0.0.1", 0, 0⟩, some ⟨"n1", "s0", "api", 80, 0, 0⟩,
+        [⟨"n1", "c1", "passing", "s0", "", "", "", "", 0, 0⟩]⟩),
+    (2, .register ⟨⟨"n1", "", "10.0.0.1", 0, 0⟩, some ⟨"n1", "s0", "web", 80, 0, 0⟩, []⟩) ]
+
+/-- … is what the service clause of the discipline excludes -/
+theorem renameLog_undisciplined : ¬ SnapDisc renameLog := by
+  intro h
+  have := h.svcs (renameLog[0]) (by simp [renameLog]) ("n1", "s0", "api") (by simp [renameLog, Cmd.svcs])
+    (renameLog[1]) (by simp [renameLog]) ("n1", "s0", "web") (by simp [renameLog, Cmd.svcs]) rfl
+  simp at this
 
 end CV.Store.SnapCex
